@@ -6,11 +6,15 @@ use crate::run::{Params, Run};
 use crate::util::Rng;
 
 fn one_case(run: &mut Run, defs: &str, text: &str, is_aggregate: bool, lines: &[String]) {
+    one_case_joined(run, defs, text, is_aggregate, lines, b"", "")
+}
+
+fn one_case_joined(run: &mut Run, defs: &str, text: &str, is_aggregate: bool, lines: &[String], joined: &[u8], jpath: &str) {
         let prepared = match prepare(defs, &text) { Ok(p) => p, Err(_) => { run.count("rejected"); return; } };
         let (wire, steps) = run_incremental(&prepared, &lines);
-        let desc = format!("query={} input={:?}", text, lines);
+        let desc = if joined.is_empty() { format!("query={} input={:?}", text, lines) } else { format!("query={} input={:?} joined={:?}", text.replace(jpath, "J"), lines, String::from_utf8_lossy(joined)) };
         // correspondence with the model's line-at-a-time driver
-        if let Some(case) = incr_case(&prepared, b"", &join_lines(&lines)) {
+        if let Some(case) = incr_case(&prepared, joined, &join_lines(&lines)) {
             let kind = if wire.contains("err:") { "err" } else if wire.contains("panic") { "panic" } else { "ok" };
             run.case_with_desc(case, wire.clone(), format!("{}:{}:d{}:h{}:n{}", if is_aggregate { "agg" } else { "sel" }, kind, text.contains("DISTINCT") as u8, text.contains("HAVING") as u8, lines.len().min(5)), desc.clone());
         }
@@ -35,7 +39,10 @@ fn one_case(run: &mut Run, defs: &str, text: &str, is_aggregate: bool, lines: &[
                 if let Some(Some((cols, rows))) = steps.get(k - 1) { shown = Some(render(cols, rows)); }
                 let table = shown.clone().unwrap_or_default();
                 if table != batch.records() {
-                    run.fail(format!("{} k={}", desc, k), "incremental-table-differs", format!("after line {} the table shown is {:?} but a batch run over the first {} lines gives {:?}", k, table, k, batch.records()));
+                    // D61: over a JOIN a line with several partners shows one table per partner, the last being the batch table
+                    let b = batch.records();
+                    let d61 = !joined.is_empty() && table.len() > b.len() && table[table.len() - b.len()..] == b[..];
+                    run.fail(format!("{} k={}", desc, k), if d61 { "D61:follow-join-table-per-partner" } else { "incremental-table-differs" }, format!("after line {} the table shown is {:?} but a batch run over the first {} lines gives {:?}", k, table, k, batch.records()));
                     break;
                 }
             } else {
@@ -121,6 +128,26 @@ pub fn run(p: &Params) -> Run {
         lines.truncate(10);
         one_case(&mut run, C04_DEF, &q.sql(), true, &lines);
     }
+    // fifth stream: statements over a JOIN (fan-out 0, 1 and more); for aggregates a line with several partners shows one
+    // table per partner (finding D61), otherwise the relation is demanded as for every statement
+    let m5 = p.n(300, 10_000);
+    let jpath = crate::runq::tmp_file(b"");
+    let jp = jpath.display().to_string();
+    let jopts = QueryOpts { allow_limit: false, allow_distinct: true, allow_join: true, aggregate: None };
+    for _ in 0..m5 {
+        let sch = gen_schema(&mut rng);
+        let mut gq = gen_query(&mut rng, &sch, &jopts, &jp);
+        let mut tries = 0;
+        while !gq.joined && tries < 6 { gq = gen_query(&mut rng, &sch, &jopts, &jp); tries += 1; }
+        if !gq.joined { continue; }
+        let jlines: Vec<String> = (0..rng.below(8)).map(|_| gen_join_line(&mut rng)).collect();
+        let joined_bytes = join_lines(&jlines);
+        std::fs::write(&jpath, &joined_bytes).unwrap();
+        let nl = rng.below(8);
+        let lines = gen_input(&mut rng, nl, 15, false);
+        one_case_joined(&mut run, &sch.defs, &gq.text, gq.is_aggregate, &lines, &joined_bytes, &jp);
+    }
+    let _ = std::fs::remove_file(&jpath);
     run.notes.push("statements without LIMIT (SELECT and aggregate, DISTINCT, HAVING) fed line by line with the default config; every prefix compared with a fresh batch run".to_owned());
     run
 }
